@@ -78,6 +78,11 @@ def process_item(item, *sketches, event_file=None, die=None, table=None):
             import signal
 
             os.kill(os.getpid(), signal.SIGKILL)  # the way the OOM killer ends a worker
+        if item.get("how") == "sigterm":
+            import signal
+
+            os.kill(os.getpid(), signal.SIGTERM)  # the way a supervisor, `kill` or a container runtime ends a worker
+            time.sleep(30)  # the signal is delivered while the callback is running
         os._exit(3)
     for k, v in item["keys"]:
         kb = bytes.fromhex(k)
